@@ -1,0 +1,103 @@
+// Copyright 2019 The Scriggo Authors. All rights reserved.
+// Use of this source code is governed by a BSD-style
+// license that can be found in the LICENSE file.
+
+//go:build verif
+
+// Contracts for the deductive verifier in /verif (govc). This file is compiled
+// only with the "verif" build tag. The //@ comment blocks are the contracts;
+// the Go functions are executable specification functions used by them.
+
+package native
+
+// ---- specification helpers (interpreted by govc) ----
+
+func old[T any](x T) T   { return x }
+func imp(a, b bool) bool { return !a || b }
+func forall(lo, hi int, p func(int) bool) bool {
+	for k := lo; k < hi; k++ {
+		if !p(k) {
+			return false
+		}
+	}
+	return true
+}
+func exists(lo, hi int, p func(int) bool) bool {
+	for k := lo; k < hi; k++ {
+		if p(k) {
+			return true
+		}
+	}
+	return false
+}
+
+// ncalls(f) is the number of calls made so far through the function-typed
+// parameter f; lastret(f) is the error returned by the latest of them (nil
+// before the first call). rangeIndex(n) is the number of completed iterations
+// of the n-th range loop of the function. All three are ghost state kept by
+// the verifier.
+func ncalls(f any) int     { return 0 }
+func lastret(f any) error  { return nil }
+func rangeIndex(n int) int { return 0 }
+
+//@ func Package.PackageName
+//@   props C22
+//@   ensures result == p.Name
+
+//@ func Package.Lookup
+//@   props C22
+//@   ensures result == p.Declarations[name]
+
+// LookupFunc: the callback is invoked once per iteration of the map range (Go
+// guarantees distinct keys); every call but the last returned nil; a non-nil
+// return ends the iteration and is the result, except that StopLookup becomes nil;
+// if no call returned an error every declaration was visited.
+//@ func Package.LookupFunc
+//@   props C22
+//@   ensures lastret(f) != nil && lastret(f) != StopLookup ==> result == lastret(f)
+//@   ensures lastret(f) == StopLookup ==> result == nil
+//@   ensures lastret(f) == nil ==> result == nil && ncalls(f) == old(len(p.Declarations))
+//@   ensures ncalls(f) <= old(len(p.Declarations))
+//@   loop 0
+//@     invariant ncalls(f) == rangeIndex(0)
+//@     invariant lastret(f) == nil
+//@     invariant err == nil
+
+//@ func CombinedPackage.PackageName
+//@   props C22
+//@   opt puremethods PackageName
+//@   ensures len(packages) == 0 ==> result == ""
+//@   ensures len(packages) > 0 ==> result == packages[0].PackageName()
+
+// Lookup: the declaration of the first package that has the name.
+//@ func CombinedPackage.Lookup
+//@   props C22
+//@   opt puremethods Lookup
+//@   ensures result == nil ==> forall(0, len(packages), func(j int) bool { return packages[j].Lookup(name) == nil })
+//@   ensures result != nil ==> exists(0, len(packages), func(j int) bool { return packages[j].Lookup(name) == result && forall(0, j, func(i int) bool { return packages[i].Lookup(name) == nil }) })
+//@   loop 0
+//@     invariant forall(0, rangeIndex(0), func(j int) bool { return packages[j].Lookup(name) == nil })
+
+// Import: the first package or error produced by the importers, in order.
+//@ func CombinedImporter.Import
+//@   props C22
+//@   opt puremethods Import
+//@   ensures (result == nil && result1 == nil) ==> forall(0, len(importers), func(j int) bool { return specImportNone(importers[j], path) })
+//@   ensures (result != nil || result1 != nil) ==> exists(0, len(importers), func(j int) bool { return specImportIs(importers[j], path, result, result1) && forall(0, j, func(i int) bool { return specImportNone(importers[i], path) }) })
+//@   loop 0
+//@     invariant forall(0, rangeIndex(0), func(j int) bool { return specImportNone(importers[j], path) })
+
+//@ func Packages.Import
+//@   props C22
+//@   ensures result1 == nil
+//@   ensures result == pp[path]
+
+func specImportNone(im Importer, path string) bool {
+	p, err := im.Import(path)
+	return p == nil && err == nil
+}
+
+func specImportIs(im Importer, path string, rp ImportablePackage, rerr error) bool {
+	p, err := im.Import(path)
+	return p == rp && err == rerr
+}
